@@ -326,6 +326,7 @@ def run(sc: dict) -> Result:
                         res.probes["empty_pool_error"] += 1
                         if len(live) < N_:
                             res.bad("slot_lost@block", f"EmptyPoolError with only {len(live)} of {N_} leases outstanding")
+                    out = None  # `live` holds the caller's only reference to the response
                     check_open("request")
                 elif kind == "dispose":
                     r = live.pop(op["of"], None)
